@@ -443,6 +443,17 @@ pub fn eval_root_pair<P: PType, A: Side<P>, B: Side<P>>(
         let mut held: Vec<(GK, GK, Option<&mut A::V>, Option<&mut B::V>)> = vam.union_mut(vbm).take(lim).map(|(p, l, r)| (norm(p.raw()), p.raw(), l, r)).collect();
         let got: Vec<(GK, Option<u32>, Option<u32>)> = held.iter().map(|(k, _, l, r)| (*k, l.as_deref().map(A::val), r.as_deref().map(B::val))).collect();
         cmp_mut_ro(&mut out, "TrieViewMut::union_mut", qa, qb, &held.iter().map(|x| x.1).collect::<Vec<_>>(), &ro_union);
+        // all references are alive here: their addresses must be pairwise distinct whatever the sequence looks like
+        {
+            let mut la: Vec<usize> = held.iter().filter_map(|x| x.2.as_deref().map(|v| v as *const A::V as usize)).collect();
+            let mut lb: Vec<usize> = held.iter().filter_map(|x| x.3.as_deref().map(|v| v as *const B::V as usize)).collect();
+            if std::mem::size_of::<A::V>() > 0 {
+                addr_check(&mut out, "TrieViewMut::union_mut", &mut la);
+            }
+            if std::mem::size_of::<B::V>() > 0 {
+                addr_check(&mut out, "TrieViewMut::union_mut", &mut lb);
+            }
+        }
         if got != union_seq {
             let presence = |v: &[(GK, Option<u32>, Option<u32>)]| -> Vec<(GK, bool, bool)> { v.iter().map(|x| (x.0, x.1.is_some(), x.2.is_some())).collect() };
             let prop = if presence(&got) == presence(&union_seq) { "C13" } else { "C05" };
@@ -459,14 +470,6 @@ pub fn eval_root_pair<P: PType, A: Side<P>, B: Side<P>>(
                 if !ok {
                     out.push(Viol::new("C18", "TrieViewMut::union_mut", "stored-representation", format!("item {:x?} reports prefix {:x?}, stored {:x?} / {:x?}", e.key, raw, e.l, e.r)));
                 }
-            }
-            let mut la: Vec<usize> = held.iter().filter_map(|x| x.2.as_deref().map(|v| v as *const A::V as usize)).collect();
-            let mut lb: Vec<usize> = held.iter().filter_map(|x| x.3.as_deref().map(|v| v as *const B::V as usize)).collect();
-            if std::mem::size_of::<A::V>() > 0 {
-                addr_check(&mut out, "TrieViewMut::union_mut", &mut la);
-            }
-            if std::mem::size_of::<B::V>() > 0 {
-                addr_check(&mut out, "TrieViewMut::union_mut", &mut lb);
             }
             for (k, _, l, r) in held.iter_mut() {
                 if let Some(l) = l {
@@ -501,11 +504,7 @@ pub fn eval_root_pair<P: PType, A: Side<P>, B: Side<P>>(
             .collect();
         cmp_mut_ro(&mut out, "TrieViewMut::intersection_mut", qa, qb, &raws, &ro_inter);
         let got: Vec<(GK, u32, u32)> = held.iter().map(|(k, l, r)| (*k, A::val(l), B::val(r))).collect();
-        if got != want {
-            let keys = |v: &[(GK, u32, u32)]| -> Vec<GK> { v.iter().map(|x| x.0).collect() };
-            let prop = if keys(&got) == keys(&want) { "C13" } else { "C06" };
-            out.push(Viol::new(prop, "TrieViewMut::intersection_mut", "yield-sequence", format!("roots {:x?} & {:x?}: intersection_mut yields {:x?}, expected {:x?}", qa, qb, got, want)));
-        } else {
+        {
             let mut la: Vec<usize> = held.iter().map(|x| &*x.1 as *const A::V as usize).collect();
             let mut lb: Vec<usize> = held.iter().map(|x| &*x.2 as *const B::V as usize).collect();
             if std::mem::size_of::<A::V>() > 0 {
@@ -514,6 +513,12 @@ pub fn eval_root_pair<P: PType, A: Side<P>, B: Side<P>>(
             if std::mem::size_of::<B::V>() > 0 {
                 addr_check(&mut out, "TrieViewMut::intersection_mut", &mut lb);
             }
+        }
+        if got != want {
+            let keys = |v: &[(GK, u32, u32)]| -> Vec<GK> { v.iter().map(|x| x.0).collect() };
+            let prop = if keys(&got) == keys(&want) { "C13" } else { "C06" };
+            out.push(Viol::new(prop, "TrieViewMut::intersection_mut", "yield-sequence", format!("roots {:x?} & {:x?}: intersection_mut yields {:x?}, expected {:x?}", qa, qb, got, want)));
+        } else {
             for (k, l, r) in held.iter_mut() {
                 tok += 2;
                 A::put(l, tok - 1);
@@ -541,6 +546,12 @@ pub fn eval_root_pair<P: PType, A: Side<P>, B: Side<P>>(
             .collect();
         cmp_mut_ro(&mut out, "TrieViewMut::difference_mut", qa, qb, &raws, &ro_diff);
         let got: Vec<(GK, u32, Option<Obs>)> = held.iter().map(|(k, v, r)| (*k, A::val(v), *r)).collect();
+        {
+            let mut la: Vec<usize> = held.iter().map(|x| &*x.1 as *const A::V as usize).collect();
+            if std::mem::size_of::<A::V>() > 0 {
+                addr_check(&mut out, "TrieViewMut::difference_mut", &mut la);
+            }
+        }
         if got != want {
             let keys = |v: &[(GK, u32, Option<Obs>)]| -> Vec<GK> { v.iter().map(|x| x.0).collect() };
             let kv = |v: &[(GK, u32, Option<Obs>)]| -> Vec<(GK, u32)> { v.iter().map(|x| (x.0, x.1)).collect() };
@@ -553,10 +564,6 @@ pub fn eval_root_pair<P: PType, A: Side<P>, B: Side<P>>(
             };
             out.push(Viol::new(prop, "TrieViewMut::difference_mut", if prop == "C08" { "lpm-annotation" } else { "yield-sequence" }, format!("roots {:x?} \\ {:x?}: difference_mut yields {:x?}, expected {:x?}", qa, qb, got, want)));
         } else {
-            let mut la: Vec<usize> = held.iter().map(|x| &*x.1 as *const A::V as usize).collect();
-            if std::mem::size_of::<A::V>() > 0 {
-                addr_check(&mut out, "TrieViewMut::difference_mut", &mut la);
-            }
             for (k, v, _) in held.iter_mut() {
                 tok += 1;
                 A::put(v, tok);
@@ -581,15 +588,17 @@ pub fn eval_root_pair<P: PType, A: Side<P>, B: Side<P>>(
             .collect();
         cmp_mut_ro(&mut out, "TrieViewMut::covering_difference_mut", qa, qb, &raws, &ro_cdiff);
         let got: Vec<(GK, u32)> = held.iter().map(|(k, v)| (*k, A::val(v))).collect();
+        {
+            let mut la: Vec<usize> = held.iter().map(|x| &*x.1 as *const A::V as usize).collect();
+            if std::mem::size_of::<A::V>() > 0 {
+                addr_check(&mut out, "TrieViewMut::covering_difference_mut", &mut la);
+            }
+        }
         if got != want {
             let keys = |v: &[(GK, u32)]| -> Vec<GK> { v.iter().map(|x| x.0).collect() };
             let prop = if keys(&got) == keys(&want) { "C13" } else { "C07" };
             out.push(Viol::new(prop, "TrieViewMut::covering_difference_mut", "yield-sequence", format!("roots {:x?} \\\\ {:x?}: covering_difference_mut yields {:x?}, expected {:x?}", qa, qb, got, want)));
         } else {
-            let mut la: Vec<usize> = held.iter().map(|x| &*x.1 as *const A::V as usize).collect();
-            if std::mem::size_of::<A::V>() > 0 {
-                addr_check(&mut out, "TrieViewMut::covering_difference_mut", &mut la);
-            }
             for (k, v) in held.iter_mut() {
                 tok += 1;
                 A::put(v, tok);
